@@ -200,13 +200,14 @@ PROPS = {
                       "the code. Fixed in /repo: Identity.Merge never reported an update.",
         "required_theorems": ["mergeLoop_eq_spec", "merge_eq_spec", "idMerge_extend", "idMerge_behind", "idMerge_equal", "idMerge_diverge",
                               "merge_append_only", "merge_keeps_first", "validate_iff", "validateFrom_cons", "rejects_nameless",
-                              "rejects_unsafe", "rejects_decreasing_clock", "rejects_dropped_clock", "mergeAll_invalid_untouched", "mergeAll_updated_valid", "mergeAll_valid_is_merge"],
+                              "rejects_unsafe", "rejects_decreasing_clock", "rejects_dropped_clock", "mergeAll_invalid_untouched", "mergeAll_updated_valid", "mergeAll_valid_is_merge", "control_character_rejected", "cleaned_texts_safe"],
         "slices": ["C09"],
         "rule": "validate: crafted chains of 1..4 versions over name/login/email/avatar/nonce classes and clock histories (ok, decreasing, "
                 "dropped, new clock) read back with identity.ReadLocal; merge: every (p,a,b) with p in 1..3(4), a,b in 0..2(3) written "
                 "directly and merged by identity.MergeAll (a third of the remote sides made invalid: decreasing or dropped clock, no name and login, unsafe name), plus real chains produced by Identity.Mutate on two go-git replicas, plus merges through RepoCache with the identity loaded or not (entity, excerpt, and a further edit appending to the merged history); "
                 "non-trivial/distinct = distinct flag chains",
-        "trusted_base": [KERNEL, TIE, "model: GitBugModel.Identity (validate, mergeLoop, merge, mergeAll) for entities/identity/identity.go and identity_actions.go:MergeAll"],
+        "trusted_base": [KERNEL, TIE, "model: GitBugModel.Identity (validate, mergeLoop, merge, mergeAll) for entities/identity/identity.go and identity_actions.go:MergeAll",
+                         "model: GitBugModel.Text (isControl, safe, safeOneLine, cleanup, cleanupOneLine) for util/text, compared on generated strings (valid UTF-8 only); text.Empty (Unicode graphic tables) and text.ValidUrl (net/url) stay flags computed by the implementation"],
         "assumptions": ["both identities have the same id (checked by the caller in MergeAll: the local ref is derived from the remote identity's id)"],
         "gen_facts": [],
     },
